@@ -11,7 +11,7 @@ package impl
 //	    → "<driver request>\t<obs>\t<argspec request>\t<argspec request with the linked definitions>\t…" (quadruples) for every field and directive of the
 //	      document; obs = OK <goval> | PANIC <hex msg>; with coerce=1 the variables are first run
 //	      through VariableValues of operation opIndex ("NOCOERCE <obs>" if that fails)
-//	strconvgo pi|pf|pb|quote <hex> ; strconvgo fold <hex> <hex>
+//	strconvgo pi|pf|pb|quote <hex>
 
 import (
 	"encoding/hex"
@@ -357,15 +357,6 @@ func opStrconvGo(a []string) string {
 		return "OK 0"
 	case "quote":
 		return HexW([]byte(strconv.Quote(s)))
-	case "fold":
-		if len(a) < 3 {
-			return "bad-args"
-		}
-		t, _ := UnhexW(a[2])
-		if strings.EqualFold(s, string(t)) {
-			return "1"
-		}
-		return "0"
 	}
 	return "bad-args"
 }
